@@ -76,8 +76,8 @@ var requestPaths = []string{"/a", "/a/", "/a/b", "/a/b/", "/a/b/c", "/a/b/c/d", 
 func main() {
 	xlog.ReplaceGlobal(xlog.New(xlog.NewNopCore()))
 	rep := report.New("C17", "model_checking")
-	rep.Rule = "explicit-state BFS over save/update/delete histories of the real route table (state = sorted table); in every state every request path of a 16-element set is resolved by the real route.Match (8 times each, Go map order is not controllable) and by a reference resolver written from the statement; table entries compared before/after lookups; media.GetOrCreate with a recording pull factory must be handed (requested canonical path, joined URL)"
-	rep.Assumptions = []string{"Go map iteration order cannot be controlled: each lookup is repeated 8 times so that an order-dependent result shows up; state key = table contents, which is all Match reads"}
+	rep.Rule = "explicit-state BFS over save/update/delete/flush histories of the real route table (state = sorted table + pending save/remove bookkeeping); in every state every request path of a 16-element set is resolved by the real route.Match (8 times each, Go map order is not controllable) and by a reference resolver written from the statement; table entries compared before/after lookups; media.GetOrCreate with a recording pull factory must be handed (requested canonical path, joined URL)"
+	rep.Assumptions = []string{"Go map iteration order cannot be controlled: each lookup is repeated 8 times so that an order-dependent result shows up; state key = table contents plus the pending save/remove bookkeeping of the implementation (everything Save/Del/Match/Flush read)"}
 	patterns := []string{"/a", "/a/", "/a/b", "/a/b/", "/", "/A/", "a/", " /a/b/c "}
 	urls := []string{"rtsp://c/x", "rtsp://c/x/", "rtsp://c"}
 	var alphabet []op
@@ -87,9 +87,10 @@ func main() {
 		}
 		alphabet = append(alphabet, op{"del", p, ""})
 	}
+	alphabet = append(alphabet, op{"flush", "", ""})
 	depth, maxTable := 4, 3
 	if rep.Thorough() {
-		depth, maxTable = 6, 4
+		depth, maxTable = 5, 4
 		patterns = append(patterns, "/a/b/c/", "/ab/", "/a/b/c")
 		requestPaths = append(requestPaths, "/a/b/c/", "/ab/c", "/a/b/c/d/e", "/A/b/C/d", "/a/b/cd")
 		alphabet = nil
@@ -99,6 +100,7 @@ func main() {
 			}
 			alphabet = append(alphabet, op{"del", p, ""})
 		}
+		alphabet = append(alphabet, op{"flush", "", ""})
 	}
 	seen := map[string]bool{}
 	frontier := [][]op{nil}
@@ -120,6 +122,10 @@ func main() {
 			case "del":
 				route.Del(o.pattern)
 				delete(model, canon(o.pattern))
+			case "flush":
+				if err := route.Flush(); err != nil {
+					return "", false
+				}
 			}
 		}
 		if len(model) > maxTable {
@@ -195,7 +201,10 @@ func main() {
 				rep.Violation("getorcreate-create-arguments "+shape(q), fmt.Sprintf("table {%s} GetOrCreate(%q): Create calls %v, want [%s]", key, q, fac.calls, want), rp)
 			}
 		}
-		return key, true
+		// The state key is the table plus the bookkeeping the implementation keeps between flushes
+		// (pending saves / removals): histories that reach one table with different bookkeeping
+		// have different futures (seed C17-r5-m1: save, del, save of one pattern with a new URL).
+		return key + " | " + route.VerifPending(), true
 	}
 	k0, _ := eval(nil)
 	seen[k0] = true
